@@ -50,7 +50,33 @@ type SignCase struct {
 	APKKeyName string     `json:"apk_key_name,omitempty"`
 	Fault      string     `json:"fault,omitempty"`
 	EdgeSig    bool       `json:"edge_sig,omitempty"` // rpm callback: return a signature whose last byte is an ASCII blank
+	Rotate     bool       `json:"rotate,omitempty"`   // key file: the configured path held another key during an earlier signed build in this process
 	returned   [][]byte
+	keyPath    string // overrides keyFile() when set
+}
+
+// rotationPartner names another key of the same kind and the same protection (same passphrase) as sc.Key.
+func (sc *SignCase) rotationPartner() string {
+	switch {
+	case strings.HasPrefix(sc.Key, "pgp-primary"):
+		return strings.Replace(sc.Key, "pgp-primary", "pgp-subkey", 1)
+	case strings.HasPrefix(sc.Key, "pgp-subkey"):
+		return strings.Replace(sc.Key, "pgp-subkey", "pgp-primary", 1)
+	case sc.Key == "rsa-a":
+		return "rsa-b"
+	default:
+		return "rsa-a"
+	}
+}
+
+func copyFileTo(src, dst string) {
+	b, err := os.ReadFile(src)
+	if err != nil {
+		panic(err)
+	}
+	if err := os.WriteFile(dst, b, 0o600); err != nil {
+		panic(err)
+	}
 }
 
 func (sc *SignCase) protected() bool {
@@ -58,6 +84,9 @@ func (sc *SignCase) protected() bool {
 }
 
 func (sc *SignCase) keyFile() string {
+	if sc.keyPath != "" {
+		return sc.keyPath
+	}
 	if sc.Format == "apk" {
 		return filepath.Join(keysDir(), sc.Key+"."+sc.KeyEnc+".pem")
 	}
@@ -350,6 +379,22 @@ func checkSign(sc *SignCase, useGPG bool) []Violation {
 	key := strings.TrimSuffix(sc.Key, "")
 	err := sc.Case.withRoot(func(root string) error {
 		var captured [][]byte
+		if sc.Rotate && !sc.Callback && sc.Fault == "" {
+			// history: the configured key path held ANOTHER key (same kind, same passphrase) when a package was signed
+			// earlier in this process; the key was then replaced at that path. The checked build must sign with the key
+			// that is at the path now.
+			stable := filepath.Join(root, "signing-key-at-a-fixed-path")
+			pre := *sc
+			pre.Key, pre.KeyID, pre.Rotate, pre.keyPath = sc.rotationPartner(), "", false, ""
+			copyFileTo(pre.keyFile(), stable)
+			pre.keyPath = stable
+			if pcfg, err := pre.config(root, nil); err == nil {
+				_ = packageInto(pcfg, f, io.Discard)
+			}
+			copyFileTo(sc.keyFile(), stable)
+			sc.keyPath = stable
+			defer func() { sc.keyPath = "" }()
+		}
 		cfg, err := sc.config(root, &captured)
 		if err != nil {
 			vs.add("C10.config-rejected", f, "%v", err)
@@ -562,6 +607,7 @@ func genSignCase(t *rapid.T) *SignCase {
 	if sc.Callback && sc.Format == "rpm" {
 		sc.EdgeSig = rapid.Bool().Draw(t, "edgesig")
 	}
+	sc.Rotate = !sc.Callback && rapid.Bool().Draw(t, "rotate")
 	if sc.Callback {
 		sc.KeyID = ""
 		sc.Key = strings.TrimSuffix(sc.Key, "-protected") // the harness callback signs with the unprotected entity of that name
